@@ -47,6 +47,40 @@ def candidates(text):
     return out
 
 
+SIMPLE = re.compile(r'^(\s*)(?:let (?:mut )?([A-Za-z_]\w*)(?:: [\w<>:, ]+)? = ([^;(){}\[\]|]*);|((?:self\.)?[A-Za-z_][\w.]*) (?:[-+*]?=) ([^;(){}\[\]|]*);)\s*$')
+
+
+def swap_candidates(text):
+    """pairs of adjacent one-line statements (a `let` or an assignment whose right-hand side calls nothing and indexes
+    nothing) that neither read nor write what the other writes: swapping them cannot change behaviour"""
+    m0 = re.search(r'#\[cfg\(test\)\]\s*mod ', text)
+    body = text if not m0 else text[:m0.start()]
+    lines = body.split('\n')
+    offs, o = [], 0
+    for ln in lines:
+        offs.append(o)
+        o += len(ln) + 1
+    out = []
+    for i in range(len(lines) - 1):
+        a, b = SIMPLE.match(lines[i]), SIMPLE.match(lines[i + 1])
+        if not a or not b or a.group(1) != b.group(1):
+            continue
+        wa, ra = (a.group(2) or a.group(4)), (a.group(3) if a.group(2) else a.group(5))
+        wb, rb = (b.group(2) or b.group(4)), (b.group(3) if b.group(2) else b.group(5))
+        ids = lambda e: set(re.findall(r'[A-Za-z_][\w.]*', e))
+        root = lambda w: w
+        if '+=' in lines[i] or '-=' in lines[i] or '*=' in lines[i]:
+            ra = ra + ' ' + wa
+        if '+=' in lines[i + 1] or '-=' in lines[i + 1] or '*=' in lines[i + 1]:
+            rb = rb + ' ' + wb
+        def clash(w, others):
+            return any(x == w or x.startswith(w + '.') or w.startswith(x + '.') for x in others)
+        if clash(wa, ids(rb) | {wb}) or clash(wb, ids(ra) | {wa}):
+            continue
+        out.append(('swap', offs[i], offs[i + 1] + len(lines[i + 1]), lines[i + 1] + '\n' + lines[i]))
+    return out
+
+
 def main():
     outdir = sys.argv[1]
     per_file = int(sys.argv[2]) if len(sys.argv) > 2 else 8
@@ -62,7 +96,7 @@ def main():
             if not f.endswith('.rs') or f in ('block.rs', 'lib.rs') or (only and f not in only.split(',')):
                 continue
             text = open(os.path.join(SRC, f)).read()
-            cands = candidates(text)
+            cands = swap_candidates(text) if os.environ.get('MICRO_KIND') == 'swap' else candidates(text)
             rnd.shuffle(cands)
             kept = 0
             for (kind, a, b, rep) in cands:
